@@ -246,4 +246,87 @@ theorem step_out (p : Pool) (e : Ev) {o : Out} (h : (step p e).2 = some o) :
         subst h
         exact ⟨lb, List.mem_map.mpr ⟨(lb, c), List.mem_of_getElem? hget, rfl⟩, _, rfl⟩
 
+/-! ### round robin across list replacement: counters per generation (Extension resil) -/
+
+/-- counter of generation `g` (0 for a generation that does not exist yet: it will be created with 0) -/
+def ctr (p : Pool) (g : Nat) : Nat :=
+  match p.gens[g]? with
+  | some (_, c) => c
+  | none => 0
+
+theorem bump_get_same : ∀ (gs : List (LB × Nat)) (g : Nat) (lb : LB) (c : Nat),
+    gs[g]? = some (lb, c) → (bump gs g)[g]? = some (lb, c + 1)
+  | [], _, _, _, h => by simp at h
+  | (lb', c') :: r, 0, lb, c, h => by
+    simp only [List.getElem?_cons_zero, Option.some.injEq, Prod.mk.injEq] at h
+    obtain ⟨rfl, rfl⟩ := h
+    simp [bump]
+  | x :: r, g + 1, lb, c, h => by
+    simp only [List.getElem?_cons_succ] at h
+    simp [bump, bump_get_same r g lb c h]
+
+theorem bump_get_other : ∀ (gs : List (LB × Nat)) (g g' : Nat), g ≠ g' → (bump gs g')[g]? = gs[g]?
+  | [], _, _, _ => by simp [bump]
+  | (lb', c') :: r, g, 0, h => by
+    cases g with
+    | zero => exact absurd rfl h
+    | succ n => simp [bump]
+  | x :: r, g, g' + 1, h => by
+    cases g with
+    | zero => simp [bump]
+    | succ n => simp [bump, bump_get_other r n g' (by omega)]
+
+/-- the selections made on generation `g`, in the order the fetch-adds happened -/
+def onGen (g : Nat) (outs : List Out) : List Out := outs.filter (fun o => o.gen == g)
+
+/-- **Every generation hands out its own consecutive counter values**, whatever loads, picks on other
+generations and publications are interleaved. -/
+theorem gen_counters (g : Nat) : ∀ (evs : List Ev) (p : Pool),
+    (onGen g (run p evs)).map (·.counter) = List.range' (ctr p g) (onGen g (run p evs)).length
+  | [], p => by simp [run, onGen]
+  | e :: es, p => by
+    have ih := gen_counters g es (step p e).1
+    cases e with
+    | load t =>
+      have hc : ctr (step p (.load t)).1 g = ctr p g := by simp [step, ctr]
+      rw [hc] at ih
+      simpa [run, step, onGen] using ih
+    | store ss =>
+      have hc : ctr (step p (.store ss)).1 g = ctr p g := by
+        simp only [step, ctr]
+        by_cases hlt : g < p.gens.length
+        · rw [List.getElem?_append_left hlt]
+        · by_cases heq : g = p.gens.length
+          · subst heq; simp
+          · rw [List.getElem?_eq_none (by simp; omega), List.getElem?_eq_none (by omega)]
+      rw [hc] at ih
+      simpa [run, step, onGen] using ih
+    | pick t x =>
+      simp only [run] at ih ⊢
+      cases hh : p.held.lookup t with
+      | none => simpa [step, hh, onGen] using ih
+      | some g' =>
+        cases hg : p.gens[g']? with
+        | none => simpa [step, hh, hg, onGen] using ih
+        | some lc =>
+          obtain ⟨lb, c⟩ := lc
+          have hstep : step p (.pick t x) =
+              ({ p with gens := bump p.gens g' }, some ⟨t, g', c, choose lb { x with counter := c }⟩) := by
+            simp [step, hh, hg]
+          rw [hstep] at ih ⊢
+          by_cases heq : g' = g
+          · subst heq
+            have hc : ctr { p with gens := bump p.gens g' } g' = ctr p g' + 1 := by
+              simp [ctr, bump_get_same p.gens g' lb c hg, hg]
+            have hc0 : ctr p g' = c := by simp [ctr, hg]
+            rw [hc] at ih
+            simp only [Option.toList_some, List.singleton_append, onGen, List.filter_cons, beq_self_eq_true,
+              if_true, List.map_cons, List.length_cons] at ih ⊢
+            rw [ih, hc0, List.range'_succ]
+          · have hc : ctr { p with gens := bump p.gens g' } g = ctr p g := by
+              simp [ctr, bump_get_other p.gens g g' (Ne.symm heq)]
+            rw [hc] at ih
+            have hne : (g' == g) = false := by simpa using heq
+            simpa [onGen, List.filter_cons, hne] using ih
+
 end EgVerif.LoadBalance
